@@ -77,7 +77,7 @@ theorem C12_disclose_invocation {env : DEnv} {s : DState} (h : DealerInv s) (cal
               cases ha : s.d.allowDisclose with
               | true => rfl
               | false => exact absurd (by simp [hrd, hd.1, ha]) hnot
-  | later reg iid v0 hmm hb hfi hf =>
+  | later iid v0 hb hfi hf =>
     exfalso
     simp only [Msg.invocation.injEq] at hm
     obtain ⟨_, _, rfl, _⟩ := hm
@@ -117,7 +117,7 @@ theorem C12_disclosed_values (env : DEnv) (reg : Reg) (caller callee : SessKey) 
   have n13 : RoleCaller ≠ RoleCaller ++ "_authrole" := by decide
   have n23 : RoleCaller ++ "_authid" ≠ RoleCaller ++ "_authrole" := by decide
   cases ha : Dict.get? (detailsOf env caller) "authid" <;> cases hr : Dict.get? (detailsOf env caller) "authrole" <;>
-    simp only [Dealer.dictGet?_set, n12, n13, n23, Ne.symm n12, Ne.symm n13, Ne.symm n23, if_true, if_false, b2, b3, and_self]
+    simp only [Dict.dget?_set, n12, n13, n23, Ne.symm n12, Ne.symm n13, Ne.symm n23, if_true, if_false, b2, b3, and_self]
 
 example : disclosed Ex.env { Ex.regPlain with callees := [1] } 1 [(OptDiscloseMe, .bool true)] = true := by decide +kernel
 
@@ -167,62 +167,37 @@ theorem C12_refused_not_delivered {env : DEnv} {s : DState} (h : DealerInv s) {c
     (hc : (⟨caller, req⟩ : ReqId) ∉ s.d.calls) (hm : s.d.matchProcedure proc = some reg)
     (hreg : reg.disclose = false) (hme : opts.optFlag OptDiscloseMe = true) (hallow : s.d.allowDisclose = false) :
     ∀ x ∈ (syncCall env s caller req opts proc args kw rnd).sends, x.msg.isInvocation = false ∧ x.to = caller := by
-  intro x hx
   have hb := h.call.byCall?_none hc
-  have hni : x.msg.isInvocation = false := by
-    cases hi : x.msg.isInvocation with
-    | false => rfl
-    | true =>
-      exfalso
-      obtain ⟨_, hform⟩ := syncCall_invocations h caller req opts proc args kw rnd x hx hi
-      cases hform with
-      | first reg₁ reg' callee hmm hb' hp hr hf =>
-        rw [hm] at hmm; cases hmm
-        unfold callRefusal at hr
-        split at hr
+  have hrefuse : ∀ callee, callRefusal env s.d.allowDisclose reg caller callee opts ≠ none := by
+    intro callee hr
+    unfold callRefusal at hr
+    split at hr
+    · cases hr
+    · split at hr
+      · cases hr
+      · split at hr
         · cases hr
         · split at hr
           · cases hr
-          · split at hr
-            · cases hr
-            · split at hr
-              · cases hr
-              · rename_i hnot
-                exact hnot (by simp [hreg, hme, hallow])
-      | later reg₁ iid v0 hmm hb' hfi hf => rw [hb] at hb'; cases hb'
-  refine ⟨hni, ?_⟩
-  -- every other message of a first chunk goes to the caller
-  rw [syncCall_eq, hm] at hx
-  simp only at hx
-  have hnp : ∀ y ∈ (noProc env s caller req).sends, y.to = caller := by
-    unfold noProc
-    rw [hb]
-    simp
-  split at hx
-  · exact hnp x hx
-  · split at hx
-    · simp only [List.mem_singleton] at hx; subst hx; rfl
-    · rw [hb] at hx
-      simp only at hx
-      split at hx
-      · cases hx
-      · rename_i callee reg' hp
-        rw [firstChunk_eq] at hx
-        split at hx
-        · simp only [List.mem_singleton] at hx; subst hx; rfl
-        · simp only [List.mem_singleton] at hx; subst hx; rfl
-        · rename_i hr
-          exfalso
-          unfold callRefusal at hr
-          split at hr
-          · cases hr
-          · split at hr
-            · cases hr
-            · split at hr
-              · cases hr
-              · split at hr
-                · cases hr
-                · rename_i hnot
-                  exact hnot (by simp [hreg, hme, hallow])
+          · rename_i hnot
+            exact hnot (by simp [hreg, hme, hallow])
+  refine syncCall_cases (env := env) (P := fun o => ∀ x ∈ o.sends, x.msg.isInvocation = false ∧ x.to = caller)
+    h caller req opts proc args kw rnd ?_ ?_ ?_ ?_ ?_ ?_ ?_ ?_
+  · intro _ x hx
+    simp only [progressAbort, List.mem_singleton] at hx; subst hx; exact ⟨rfl, rfl⟩
+  · intro iid v0 hb' _ _ _ _ _ _; rw [hb] at hb'; cases hb'
+  · intro iid v0 hb' _ _ _ _ _ _; rw [hb] at hb'; cases hb'
+  · intro _ _ _ x hx
+    simp only [List.mem_singleton] at hx; subst hx; exact ⟨rfl, rfl⟩
+  · intro reg₁ reg' callee e _ _ _ _ _ _ _ x hx
+    simp only [List.mem_singleton] at hx; subst hx; exact ⟨rfl, rfl⟩
+  · intro reg₁ reg' callee _ _ _ _ _ _ _ x hx
+    simp only [List.mem_singleton] at hx; subst hx; exact ⟨rfl, rfl⟩
+  · intro reg₁ reg' callee _ _ hm₁ _ _ _ hr _
+    rw [hm] at hm₁; cases hm₁
+    exact absurd hr (hrefuse callee)
+  · intro reg₁ reg' callee _ _ hm₁ _ _ _ hr _
+    rw [hm] at hm₁; cases hm₁
+    exact absurd hr (hrefuse callee)
 
 end Nexus.C12
